@@ -373,6 +373,14 @@ func ffOp(op, pat string, args []string, a *argTrack) string {
 		if string(b[:]) != string(m) {
 			return showBytes(b[:]) + "!Marshal-differs"
 		}
+		// a result must stay what it is when the operation is used again (on another element)
+		other := ff.NewElement().SetUint64(0x0123456789abcdef)
+		_ = other.Marshal()
+		_ = other.Bytes()
+		if string(b[:]) != string(m) {
+			return showBytes(b[:]) + "!result-overwritten-by-next-call"
+		}
+		a.Keep(func() string { return showBytes(m) })
 		return showBytes(b[:])
 	case "string":
 		need(args, 1)
